@@ -5,6 +5,7 @@ CONSTANT NTrees = 2
 CONSTANT NKw = 4
 CONSTANT WithPut = FALSE
 CONSTANT Filter = FALSE
+CONSTANT Rand = FALSE
 INIT Init
 NEXT Next
 INVARIANT CallerMapsUnchanged
